@@ -778,6 +778,15 @@ class Evaluator:
                 if c["path"] and re.search(r"(REMOVED_SEGMENT_NODE|SENTINEL_SEGMENT_NODE_(SIZE|OFFSET))$", c["path"]):
                     return ("named", c["path"].split("::")[-1], n)
                 return const(n)
+            if c.get("ref_int") is not None:
+                # a promoted reference to a scalar (`x.cmp(&0)`)
+                n = int(c["ref_int"])
+                m = re.match(r"^&(?:'\w+ )?i(8|16|32|64|128|size)$", c["ty"])
+                if m:
+                    bits = 64 if m.group(1) == "size" else int(m.group(1))
+                    if n >= 1 << (bits - 1):
+                        n -= 1 << bits
+                return ("ref", ("tmp", const(n)))
             if c["path"]:
                 return ("constpath", c["path"], c["dbg"])
             return ("constval", c["ty"], c["dbg"])
@@ -1251,6 +1260,8 @@ class Evaluator:
                 return self._walk_value(fr.env.get(tgt[2], ("undef", tgt[1], tgt[2])), tgt[3])
             if tgt[0] == "tmp":
                 return tgt[1]
+            if tgt[0] == "heap" and len(tgt) == 3:
+                return self._heap_read(tgt[1], tgt[2], False, None)     # `&self.len`: the current value of the field
         return v
 
     def _target(self, v):
@@ -1670,6 +1681,14 @@ class Evaluator:
         if cb is None and t.get("callee") and t.get("resolved") is None:
             cb = None
         if self._should_inline(cb, c):
+            if cb.kind == "Closure" and len(args) == 2 and tag(args[1]) == "tuple" and cb.nargs == 1 + len(args[1][1]):
+                # a local closure called directly (`let bound = |x| ..; bound(n)`): the call resolves to the closure body, whose arguments arrive as one tuple
+                a0 = args[0]
+                if cb.locals[1]["ty"].startswith("&") and tag(a0) != "ref":
+                    a0 = ("ref", ("tmp", a0))
+                elif not cb.locals[1]["ty"].startswith("&") and tag(a0) == "ref":
+                    a0 = self._deref_val(a0)
+                return self._inline(frame, bi, cb, [a0] + list(args[1][1]), entry)
             return self._inline(frame, bi, cb, args, entry)
         # ---- opaque
         cn = re.sub(r"^<+(?:[^<>]*? as )?", "", c)
@@ -1970,6 +1989,8 @@ class Evaluator:
                 gs.append((cond, ("eq", 1)) if arms_all == [0] and (op_ty == "bool" or (op_ty is None and self._shape_is_bool(cond))) else (cond, ("ne", tuple(arms_all))))
             elif len(vals) == 1 and j != t["otherwise"]:
                 gs.append((cond, ("eq", vals[0])))
+            elif len(vals) > 1 and j != t["otherwise"]:
+                gs.append((cond, ("in", tuple(vals))))      # `A | B => ..`: one arm for several values
         return gs
 
     def _shape_is_bool(self, c):
@@ -2121,6 +2142,7 @@ def implied_facts(guards):
                 if lo_ is not None and rel in (("eq", 0), ("ne", (1,))):
                     facts |= implied_facts([(("cmp", "Ge", x[1], const(lo_)), ("eq", 1)), (("cmp", "Le", x[1], const(hi_)), ("eq", 1))])
             if tag(x) == "ordcmp":
+                facts.discard(("discr", cond[1], rel))      # the comparison fact below says the same in the spelling `a < b` has
                 # a.cmp(&b): Less = -1 (255 as an unsigned switch value), Equal = 0, Greater = 1
                 a_, b_ = x[1], x[2]
                 LESS = (255, -1, 2**8 - 1, 2**64 - 1, 2**128 - 1)
@@ -2129,8 +2151,10 @@ def implied_facts(guards):
                 op = None
                 if rel[0] == "eq":
                     op = one(rel[1])
-                elif rel[0] == "ne":
-                    left = {"Lt", "Eq", "Gt"} - set(one(v) for v in rel[1])
+                elif rel[0] in ("ne", "in"):
+                    # `Less | Equal => ..` is one arm reached for two values; the `_` arm is reached for the values not named
+                    named = set(one(v) for v in rel[1])
+                    left = ({"Lt", "Eq", "Gt"} - named) if rel[0] == "ne" else (named - {None})
                     op = {frozenset(["Lt"]): "Lt", frozenset(["Eq"]): "Eq", frozenset(["Gt"]): "Gt", frozenset(["Lt", "Eq"]): "Le", frozenset(["Gt", "Eq"]): "Ge",
                           frozenset(["Lt", "Gt"]): "Ne"}.get(frozenset(left))
                 if op is not None:
